@@ -31,6 +31,12 @@ void ti_setsemaphore(TImpl* t, u16 v) { t->apbp_from_cpu.SetSemaphore(v); }
 u16 ti_getsemaphore(TImpl* t) { return t->apbp_from_dsp.GetSemaphore(); }
 void ti_clearsemaphore(TImpl* t, u16 v) { t->apbp_from_dsp.ClearSemaphore(v); }
 void ti_masksemaphore(TImpl* t, u16 v) { t->apbp_from_dsp.MaskSemaphore(v); }
+void ti_mk_table(std::vector<Matcher<Interpreter>>* out) { new (out) std::vector<Matcher<Interpreter>>(GetDecodeTable<Interpreter>()); }
+void ti_pwrite(TImpl* t, u32 a, u16 v) { t->memory_interface.ProgramWrite(a, v); }
+void ti_timer_poke(TImpl* t, u16 mode, u32 counter) {
+    t->timer[0].count_mode = (Timer::CountMode)mode; t->timer[0].update_mmio = 1; t->timer[0].pause = 0; t->timer[0].counter = counter; t->timer[1].pause = 1;
+}
+u32 ti_timer_counter(TImpl* t) { return t->timer[0].counter; }
 void ti_tick(TImpl* t) { t->core_timing.Tick(); }
 u64 ti_skip(TImpl* t, u64 n) { return t->core_timing.Skip(n); }
 void ti_call_handler(std::function<void()>* f) { (*f)(); }
